@@ -1,15 +1,12 @@
 (* Sound7.v — layer 3, stage 6: the closure policy for programs with iterator operators.
-   [policy6 pre] allows
-     - the iterator operators, when the store typing of the program's constants records the
-       honest signatures of the prelude closures ([prelude_ok pre W0]);
-     - every closure literal whose body is typed WITHOUT iterator operators (under
-       [all_policy]): for those the constant-propagation pass preserves typing
-       (SoundRec3.recreate_ok_all).  It does not for bodies with iterator operators
-       (C01b.recreate_iterator_refuted).
-   [policy6_ok]: the hypothesis of Soundness.v is proved for it.  (The iterator gate is the
-   REJECTION of a reserved key, so [policy6] rejects it exactly when the prelude is NOT
-   typed; reading the gate back is a double negation: Classical_Prop.NNPP.) *)
-From Coq Require Import Classical_Prop.
+   [policy6] allows
+     - the gated iterator rules (`$]`, `$init f`, `? T`, `\`): it rejects the reserved key;
+     - every closure literal whose body is typed WITHOUT the gated rules (under [all_policy]):
+       for those the constant-propagation pass preserves typing (SoundRec3.recreate_ok_all).
+       It does not for the rules that read the element type off the static type
+       (C01b.recreate_iterator_refuted).  The planted forms of `$+ $* $&& $|| $& $|` are
+       plain calls / matches and are NOT gated: closure bodies may contain them.
+   [policy6_ok]: the hypothesis of Soundness.v is proved for it. *)
 From SSL.Model Require Import Base Ty Float Value Ops Seq Syntax Rt Recreate Exec Check.
 From SSL.Lemmas Require Import TyLemmas ValueLemmas SeqLemmas ExecLemmas SoundLemmas CellLemmas
   SoundDefs SoundVals SoundTyping Sound1 Sound2 Sound3 Sound4 Sound5 SoundRec1 Sound6
@@ -19,58 +16,49 @@ Arguments matches : simpl never.
 Arguments ty_eqb : simpl never.
 Arguments concat : simpl never.
 
-Definition policy6 (pre : prelude) : Policy :=
+Definition policy6 : Policy :=
   fun W0 G nm ps body r =>
-    (r = TMulti [] /\ ~ prelude_ok pre W0) \/
-    (wf_ty r = true /\
-     exists G' Ts, @typed_list all_policy W0 (closure_env nm ps r ++ G) (mkK false (Some r)) body G' Ts /\
-                   (matches TVoid r = true \/ In TNever Ts)).
+    wf_ty r = true /\
+    exists G' Ts, @typed_list all_policy W0 (closure_env nm ps r ++ G) (mkK false (Some r)) body G' Ts /\
+                  (matches TVoid r = true \/ In TNever Ts).
 
 Lemma all_policy_nogate : forall W0 G i, ~ @iter_gate all_policy W0 G i.
 Proof. intros W0 G i H. apply H. exact I. Qed.
 
-(* typing under all_policy (no iterator operators) embeds into typing under policy6: a closure
+(* the gate of policy6 is open *)
+Lemma gate6 W0 G i : @iter_gate policy6 W0 G i.
+Proof. intros [Wr _]. discriminate Wr. Qed.
+
+(* typing under all_policy (no gated rules) embeds into typing under policy6: a closure
    literal carries its own body typing *)
-Lemma typed_all_in_6 pre W0 :
-  (forall G K i T, @typed all_policy W0 G K i T -> @typed (policy6 pre) W0 G K i T) /\
-  (forall G K es Ts, @typed_all all_policy W0 G K es Ts -> @typed_all (policy6 pre) W0 G K es Ts) /\
-  (forall G K fs acc out, @typed_fields all_policy W0 G K fs acc out -> @typed_fields (policy6 pre) W0 G K fs acc out) /\
-  (forall G K o, @typed_opt all_policy W0 G K o -> @typed_opt (policy6 pre) W0 G K o) /\
-  (forall G K i T G', @typed_line all_policy W0 G K i T G' -> @typed_line (policy6 pre) W0 G K i T G') /\
-  (forall G K l G' Ts, @typed_list all_policy W0 G K l G' Ts -> @typed_list (policy6 pre) W0 G K l G' Ts) /\
-  (forall G K arms Ts, @typed_arms all_policy W0 G K arms Ts -> @typed_arms (policy6 pre) W0 G K arms Ts).
+Lemma typed_all_in_6 W0 :
+  (forall G K i T, @typed all_policy W0 G K i T -> @typed policy6 W0 G K i T) /\
+  (forall G K es Ts, @typed_all all_policy W0 G K es Ts -> @typed_all policy6 W0 G K es Ts) /\
+  (forall G K fs acc out, @typed_fields all_policy W0 G K fs acc out -> @typed_fields policy6 W0 G K fs acc out) /\
+  (forall G K o, @typed_opt all_policy W0 G K o -> @typed_opt policy6 W0 G K o) /\
+  (forall G K i T G', @typed_line all_policy W0 G K i T G' -> @typed_line policy6 W0 G K i T G') /\
+  (forall G K l G' Ts, @typed_list all_policy W0 G K l G' Ts -> @typed_list policy6 W0 G K l G' Ts) /\
+  (forall G K arms Ts, @typed_arms all_policy W0 G K arms Ts -> @typed_arms policy6 W0 G K arms Ts).
 Proof.
   apply (@typed_mutind all_policy); intros; try (econstructor; eauto; fail).
   - (* anon fn *)
     match goal with Hw : wf_ty (TFun _ r) = true |- _ => pose proof (proj2 (wf_fun_parts _ _ Hw)) as Wr end.
-    eapply T_AnonFn; try eassumption. right. split; [exact Wr|]. eauto.
-  - exfalso. eapply all_policy_nogate; eassumption.
-  - exfalso. eapply all_policy_nogate; eassumption.
+    eapply T_AnonFn; try eassumption. split; [exact Wr|]. eauto.
   - exfalso. eapply all_policy_nogate; eassumption.
   - exfalso. eapply all_policy_nogate; eassumption.
   - exfalso. eapply all_policy_nogate; eassumption.
   - exfalso. eapply all_policy_nogate; eassumption.
   - (* fn decl *)
     match goal with Hw : wf_ty (TFun _ r) = true |- _ => pose proof (proj2 (wf_fun_parts _ _ Hw)) as Wr end.
-    eapply Ln_fndecl; try eassumption. right. split; [exact Wr|]. eauto.
+    eapply Ln_fndecl; try eassumption. split; [exact Wr|]. eauto.
 Qed.
 
-Theorem policy6_ok powf pre : @policy_ok (policy6 pre) powf pre.
+Theorem policy6_ok powf : @policy_ok policy6 powf.
 Proof.
-  split.
-  - intros W0 G nm ps body r G' Ts Hok Wf Hnm _ _.
-    destruct Hok as [[-> _]|[Wr [G5 [Ts5 [Hb5 Hend5]]]]].
-    + exfalso. cbn [wf_ty] in Wf. apply andb_true_iff in Wf. destruct Wf as [_ Wf]. discriminate Wf.
-    + pose proof (proj1 (@recreate_ok_all powf pre) W0 G nm ps body r G5 Ts5 I Wf Hnm Hb5 Hend5) as H5.
-      intros W sc HE HG. destruct (H5 W sc HE HG) as [NP [HErr HOk]].
-      split; [exact NP|]. split; [exact HErr|].
-      intros body' Hb'. destruct (HOk body' Hb') as [G'' [Ts' [Hl Hend]]].
-      exists G'', Ts'. split; [|exact Hend]. apply (typed_all_in_6 pre W). exact Hl.
-  - intros W0 G i Hg. apply NNPP. intros Hn. apply Hg. left. split; [reflexivity|exact Hn].
-Qed.
-
-(* the gate of policy6, in the direction derivations need it *)
-Lemma gate6_intro pre W0 G i : prelude_ok pre W0 -> @iter_gate (policy6 pre) W0 G i.
-Proof.
-  intros HP [[_ Hn]|[Wr _]]; [exact (Hn HP)|discriminate Wr].
+  intros W0 G nm ps body r G' Ts [Wr [G5 [Ts5 [Hb5 Hend5]]]] Wf Hnm _ _.
+  pose proof (@recreate_ok_all powf W0 G nm ps body r G5 Ts5 I Wf Hnm Hb5 Hend5) as H5.
+  intros W sc HE HG. destruct (H5 W sc HE HG) as [NP [HErr HOk]].
+  split; [exact NP|]. split; [exact HErr|].
+  intros body' Hb'. destruct (HOk body' Hb') as [G'' [Ts' [Hl Hend]]].
+  exists G'', Ts'. split; [|exact Hend]. apply (typed_all_in_6 W). exact Hl.
 Qed.
